@@ -299,6 +299,9 @@ def _rand_c18(rng, tier, sc0):
             c = {"rot": False, "naming": "Num", "mode": c["mode"], "cap": c.get("cap", 64),
                  "flush_ms": c.get("flush_ms", 0)}
         c["fw"] = i % 3 == 2          # default channel = file and a writer (log_to_file_and_writer)
+        if i % 5 == 4:
+            c["fw"] = False
+            c["asadd"] = True         # the file writer as additional writer, default channel stderr
         if "size" in c:
             c["size"] = rng.choice([20, 60, 500])
         steps = [{"op": "Start", "append": rng.random() < 0.3}]
